@@ -217,6 +217,8 @@ fn sweep(cx: &Cx, phase: &str, l: u64, acc: &mut Acc, f: &(dyn Fn(&Case, &mut Ac
             faults: vec![],
             tail: vec![],
             segments: 0,
+            counting_hint: false,
+            unfused_errors: false,
         },
         req: ReqSpec::get().with("range", range),
     };
